@@ -819,7 +819,7 @@ theorem resolveKind_module {cx : Ctx} {rec : Rec} {vs : List Id} {Mo Mn D N : Id
     (hMo : s.heap[Mo]? = some (.module D)) (hMn : s.heap[Mn]? = some (.module N)) :
     resolveKind cx rec vs Mo Mn true s = .ok (some .module, s) := by
   unfold resolveKind
-  simp [M.bind, getObj_eq hMo, getObj_eq hMn, getSt, defModule, hMn, M.pure]
+  simp [M.bind, getObj_eq hMo, getObj_eq hMn, getSt, defModule, hMn, hMo, M.pure]
 
 theorem prot_module {h : List Obj} {i d : Id} (he : h[i]? = some (.module d)) : Prot h i :=
   ⟨_, he, by simp [Obj.kind], by simp [Obj.kind]⟩
@@ -916,15 +916,19 @@ theorem restore_aset (k : Str) (v : Id) (l : List (Str × Id)) : restore k (aloo
 /-- the new object is defined by the module being reloaded (or its origin is unknown / no module given) -/
 def sameModule (cx : Ctx) (m' : Option Str) : Bool := !(cx.modname.isSome && m'.isSome && m' != cx.modname)
 
+/-- `livepatch` may patch `old` (of module `m`) with `new` (of module `m'`) in place: the new object belongs to the
+    module being reloaded and — with repair D52 — so does the old one -/
+def patchable (cx : Ctx) (m m' : Option Str) : Bool := sameModule cx m' && (!cx.fx.d52 || sameModule cx m)
+
 theorem resolveKind_func {cx : Ctx} {rec : Rec} {vs : List Id} {fo fn : Id} {s : St}
     {n m c d dc di ce fv n' m' c' d' dc' di' ce' fv'}
     (hfo : s.heap[fo]? = some (.func n m c d dc di ce fv)) (hfn : s.heap[fn]? = some (.func n' m' c' d' dc' di' ce' fv')) :
-    resolveKind cx rec vs fo fn false s = .ok (if sameModule cx m' then some .func else none, s) := by
-  unfold resolveKind sameModule
+    resolveKind cx rec vs fo fn false s = .ok (if patchable cx m m' then some .func else none, s) := by
+  unfold resolveKind patchable sameModule
   simp only [bind_eq, pure_eq, M.bind, getObj_eq hfo, getObj_eq hfn, getSt, defModule, hfn, hfo, sameType, Obj.kind]
-  by_cases hm : (cx.modname.isSome && m'.isSome && m' != cx.modname) = true
-  · simp [hm]; rfl
-  · simp [hm]; rfl
+  cases hA : (cx.modname.isSome && m'.isSome && m' != cx.modname) <;>
+    cases hB : (cx.modname.isSome && m.isSome && m != cx.modname) <;>
+    cases h52 : cx.fx.d52 <;> simp <;> rfl
 
 theorem updFunc_ok {i : Id} {c d dc : Nat} {s s' : St} {a : Unit} (h : updFunc i c d dc s = .ok (a, s')) :
     ∃ n m c0 d0 dc0 di ce fv, s.heap[i]? = some (.func n m c0 d0 dc0 di ce fv) ∧
@@ -1171,12 +1175,12 @@ theorem cls_keys_sync (fx : Fixes) (a a' : List (Str × Id)) (k : Str) :
 theorem resolveKind_cls {cx : Ctx} {rec : Rec} {vs : List Id} {co cn : Id} {s : St}
     {n m sl b a n' m' sl' b' a'}
     (hco : s.heap[co]? = some (.cls n m sl b a)) (hcn : s.heap[cn]? = some (.cls n' m' sl' b' a')) :
-    resolveKind cx rec vs co cn false s = .ok (if sameModule cx m' then some .cls else none, s) := by
-  unfold resolveKind sameModule
+    resolveKind cx rec vs co cn false s = .ok (if patchable cx m m' then some .cls else none, s) := by
+  unfold resolveKind patchable sameModule
   simp only [bind_eq, pure_eq, M.bind, getObj_eq hco, getObj_eq hcn, getSt, defModule, hcn, hco, sameType, Obj.kind]
-  by_cases hm : (cx.modname.isSome && m'.isSome && m' != cx.modname) = true
-  · simp [hm]; rfl
-  · simp [hm]; rfl
+  cases hA : (cx.modname.isSome && m'.isSome && m' != cx.modname) <;>
+    cases hB : (cx.modname.isSome && m.isSome && m != cx.modname) <;>
+    cases h52 : cx.fx.d52 <;> simp <;> rfl
 
 theorem docKey_not_special : special docKey = false := by decide
 
